@@ -228,6 +228,44 @@ def write_if_changed(path, text):
     return True
 
 
+# ------------------------------------------------------------------ shrinking of failing inputs
+
+def shrink_text(text, still_fails, budget_s=4.0):
+    """delta debugging on the lines, then on the characters, of a failing text; `still_fails(candidate)`
+    re-evaluates the property's oracle on the REAL code. Time-boxed; returns the smallest failing
+    text found (the original if nothing smaller fails)."""
+    t0 = time.time()
+
+    def ddmin(units, join):
+        n = 2
+        while len(units) >= 2 and time.time() - t0 < budget_s:
+            size = max(1, len(units) // n)
+            reduced = False
+            for i in range(0, len(units), size):
+                cand = units[:i] + units[i + size:]
+                if time.time() - t0 >= budget_s:
+                    break
+                try:
+                    bad = cand and still_fails(join(cand))
+                except Exception:
+                    bad = False
+                if bad:
+                    units = cand
+                    n = max(n - 1, 2)
+                    reduced = True
+                    break
+            if not reduced:
+                if size == 1:
+                    break
+                n = min(len(units), n * 2)
+        return units
+    lines = ddmin(text.split("\n"), "\n".join)
+    text2 = "\n".join(lines)
+    if len(text2) <= 400:
+        text2 = "".join(ddmin(list(text2), "".join))
+    return text2 if len(text2) < len(text) else text
+
+
 # ------------------------------------------------------------------ model driver
 
 def run_driver(lines):
